@@ -1,18 +1,30 @@
 """C16 - S3 commits install the root inventory last and clean up after failures.
 
-Stage 1 (proof): Props/C16.v (request order of write_new_version / write_new_object, fault cleanup
-  for every request outside the known class, refutation witnesses inside).
+/repo commits 4953bf6 (the inventory of an uploaded directory and its sidecar go last) and 9053efb (a failed
+version commit puts back the root inventory pair and the declaration it replaced) repaired the two classes this
+check used to count as known findings (new-object-walk-order, root-inventory-rollback).  Their inputs - a failing
+root sidecar PUT, a failing declaration PUT / DELETE of an upgrade, zero-padded version directories whose walk
+order listed the root inventory early - are generated as before and are MUST-PASS now: nothing is suppressed.
+
+Stage 1 (proof): Props/C16.v (request order of write_new_version / write_new_object for every directory walk,
+  cleanup for EVERY failing mutating request incl. root sidecar and declaration swap, the retry succeeds).
 Stage 2 (direct search): histories are driven through the real library on the S3 stand-in; at every
-  commit (new object, new version, upgrade; small and multipart files) the fault-free run is logged
-  and then every mutating request of that commit is failed once with HTTP 500 and once by dropping
-  the connection.  After each failure, through a fresh handle: commit reported an error, every key
-  that existed before is unchanged (earlier versions, previous root inventory and sidecar, other
-  objects), nothing of vN is left, earlier versions read back identically, the staged version is
+  commit (new object, new version, upgrade; small and multipart files; plain and zero-padded version numbers)
+  the fault-free run is logged and then every mutating request of that commit is failed once with HTTP 500 and
+  once by dropping the connection.  After each failure, through a fresh handle: commit reported an error, every
+  key that existed before is unchanged (earlier versions, previous root inventory and sidecar, declaration,
+  other objects), nothing of vN is left, earlier versions read back identically, the staged version is
   still there, and the retried commit succeeds and yields the same bucket as the fault-free commit.
   Order oracle on the fault-free log: root inventory.json after every key below vN/, before its sidecar.
 Stage 3 (correspondence): the Gallina request programs (Model/S3.v) are run with the same fault
-  position on the same bucket and compared with the request log (exact, uploads in the observed walk
-  order), the result class and the final bucket.
+  position on the same bucket and compared with the request log (exact: the mutating requests and the GETs the
+  commit sends after its first mutating request, i.e. the reads of what it is about to replace), the result
+  class and the final bucket.  The directory walk handed to the model is the observed upload order of the
+  ordinary files with the directory's own inventory.json and inventory.json.* moved to the FRONT: the model's
+  stable sort (S3.upload_order) has to move them to the end to agree with the log, so the correspondence does not
+  depend on re-enacting the readdir order and still breaks if the code stops sorting.
+A failure of a request that puts something back during the rollback (a second fault in one commit) is outside the
+single-failure quantifier of the property and is not generated.
 """
 import hashlib
 import os
@@ -22,8 +34,6 @@ from vplib import common, hist, s3stub
 from vplib.common import coq_str, coq_list
 from checks import c15
 
-K_ROLLBACK = "root-inventory-rollback"
-K_WALK = "new-object-walk-order"
 PART = 5 * 1024 * 1024
 
 
@@ -45,10 +55,24 @@ def mut_log(entries):
     return [e for e in entries if e["method"] in ("PUT", "POST", "DELETE")]
 
 
+def corr_log(entries):
+    """what the model logs: the mutating requests, and the GETs sent after the first mutating request of the
+    commit (write_new_version reads what it is about to replace, s3.rs:591-602; the GETs before the first
+    mutating request belong to get_inventory / the staging bookkeeping and are not part of the request program)"""
+    out, seen = [], False
+    for e in entries:
+        if e["method"] in ("PUT", "POST", "DELETE"):
+            seen = True
+            out.append(e)
+        elif seen and e["kind"] == "get":
+            out.append(e)
+    return out
+
+
 def coq_req(e):
     k = coq_str(e["key"])
     return {"put": "RPut %s", "delete": "RDelete %s", "mp-create": "RMpCreate %s", "mp-complete": "RMpComplete %s",
-            "mp-abort": "RMpAbort %s"}.get(e["kind"], "RPut %s") % k if e["kind"] != "mp-part" else \
+            "mp-abort": "RMpAbort %s", "get": "RGet %s"}.get(e["kind"], "RPut %s") % k if e["kind"] != "mp-part" else \
         "RMpPart %s %d" % (k, int(e["query"].get("partNumber", 0)))
 
 
@@ -133,7 +157,8 @@ class Sweep:
         # ---- fault-free reference
         stub.clear_log()
         ref = self.r.s.call(cmd)
-        ref_log = mut_log(stub.take_log())
+        ref_full = stub.take_log()
+        ref_log = mut_log(ref_full)
         if "ok" not in ref:
             shutil.rmtree(stg_copy, ignore_errors=True)
             return ref                                     # refused (e.g. nothing staged): no S3 commit to sweep
@@ -148,8 +173,25 @@ class Sweep:
         sidecar_key = next((k for k in new_keys if k.startswith(root_full + "/inventory.json.")), None)
         rec = {"label": label, "oid": oid, "op": op["op"], "is_new": is_new, "prefix": self.prefix, "root": root_full[len(self.pl):],
                "vstr": vstr, "n_requests": len(ref_log), "kinds": sorted({e["kind"] for e in ref_log}),
-               "order_msg": None, "faults": [], "ref_log": ref_log, "base_bucket": base_bucket, "ref_final": ref_final,
-               "sidecar_name": sidecar_key.rsplit("/", 1)[-1] if sidecar_key else None}
+               "order_msg": None, "faults": [], "ref_log": ref_log, "ref_corr_log": corr_log(ref_full),
+               "base_bucket": base_bucket, "ref_final": ref_final,
+               "sidecar_name": sidecar_key.rsplit("/", 1)[-1] if sidecar_key else None,
+               "old_sidecar_name": next((x[len(root_full) + 1:] for x in sorted(base_bucket)
+                                         if x.startswith(root_full + "/inventory.json.")), None)}
+        n_up = sum(1 for e in ref_log if e["key"].startswith(vpre)) if not is_new else len(ref_log)
+        stored_after = [e for e in ref_log[n_up:]]
+
+        def stage_of(k):
+            """which part of the commit request k belongs to (coverage only)"""
+            if k < n_up:
+                return "upload"
+            e = stored_after[k - n_up]
+            name = e["key"][len(root_full) + 1:]
+            if name == "inventory.json":
+                return "root-inventory"
+            if name.startswith("inventory.json."):
+                return "root-sidecar"
+            return "declaration-" + ("delete" if e["kind"] == "delete" else "put")
         # ---- order oracle (model-free): root inventory after everything below vN/, before the root sidecar
         pos = {e["key"]: i for i, e in enumerate(ref_log) if e["kind"] in ("put", "mp-complete")}
         ri = pos.get(root_full + "/inventory.json")
@@ -167,13 +209,13 @@ class Sweep:
                 stub.clear_log()
                 stub.fail_at(k, mode=mode, scope="mut")
                 r = self.r.s.call(cmd)
-                log = mut_log(stub.take_log())
+                log = corr_log(stub.take_log())
                 stub.clear_faults()
                 after = stub.dump(bucket)
                 pending = len(stub.pending_uploads())
                 stub.uploads.clear()
                 f = {"k": k, "mode": mode, "class": hist.res_class(r), "log": log, "after": after, "msg": None,
-                     "failed_kind": ref_log[k]["kind"], "pending_uploads": pending}
+                     "failed_kind": ref_log[k]["kind"], "pending_uploads": pending, "stage": stage_of(k)}
                 msgs = []
                 if "ok" in r:
                     msgs.append("commit reported success although request %d failed" % k)
@@ -216,7 +258,7 @@ class Sweep:
 # --------------------------------------------------------------------------- Coq terms
 
 def model_terms(rec):
-    """terms for one swept commit: [(name, term)] using the observed walk order of each run"""
+    """terms for one swept commit: [(name, term)]"""
     pl = (s3stub.norm_prefix(rec["prefix"]) + "/") if s3stub.norm_prefix(rec["prefix"]) else ""
     cp = rec["prefix"] or ""
     root_full = pl + rec["root"]
@@ -240,11 +282,17 @@ def model_terms(rec):
         strip = vpre
 
     def walk_for(log):
+        """a directory walk the observed upload order is compatible with: the ordinary files in the order in
+        which their uploads were attempted (then the ones never reached, in the order of the fault-free run),
+        with the directory's own sidecar and inventory moved to the FRONT - S3.upload_order must move them back"""
         attempted = []
         for e in log:
             if e["kind"] in ("put", "mp-create") and e["key"] in upload_ref and e["key"] not in attempted:
                 attempted.append(e["key"])
-        return attempted + [k for k in upload_ref if k not in attempted]
+        seq = attempted + [k for k in upload_ref if k not in attempted]
+        inv = [k for k in seq if k[len(strip):] == "inventory.json"]
+        sc = [k for k in seq if k[len(strip):].startswith("inventory.json.")]
+        return sc + inv + [k for k in seq if k not in inv and k not in sc]
 
     def files_term(keys):
         return coq_list([coq_ufile(k[len(strip):], len(fin[k]), ctok(k, fin[k])) for k in keys])
@@ -255,26 +303,23 @@ def model_terms(rec):
     if rec["is_new"]:
         def term(fa, log, cls, after):
             return "check_object_run %s %s %s %s %s %s" % (fa, coq_str(cp), coq_str(rec["root"]), files_term(walk_for(log)), bk, obs(log, cls, after))
-        walk = coq_list([coq_str(k[len(strip):]) for k in upload_ref])
-        terms.append(("class-walk", "known_c16_walk %s %s %s" % (coq_str(rec["vstr"]), coq_str(rec["sidecar_name"] or ""), walk)))
     else:
         inv_k, sc_k = root_full + "/inventory.json", root_full + "/" + (rec["sidecar_name"] or "inventory.json.sha512")
         decl = [k for k in stored_ref if k.startswith(root_full + "/0=ocfl_object_")]
         up = "(Some (%s, %s))" % (coq_str(decl[0][len(root_full) + 1:]), coq_str(ctok(decl[0], fin[decl[0]]))) if decl else "None"
 
         def inp(log):
-            return "(mkNv %s %s %s %s %s %s)" % (
+            return "(mkNv %s %s %s %s %s %s %s)" % (
                 coq_str(rec["root"]), coq_str(rec["vstr"]), files_term(walk_for(log)),
                 coq_ufile("inventory.json", len(fin[inv_k]), ctok(inv_k, fin[inv_k])),
-                coq_ufile(sc_k.rsplit("/", 1)[-1], len(fin[sc_k]), ctok(sc_k, fin[sc_k])), up)
+                coq_ufile(sc_k.rsplit("/", 1)[-1], len(fin[sc_k]), ctok(sc_k, fin[sc_k])),
+                coq_str(rec["old_sidecar_name"] or sc_k.rsplit("/", 1)[-1]), up)
 
         def term(fa, log, cls, after):
             return "check_version_run %s %s %s %s %s" % (fa, coq_str(cp), inp(log), bk, obs(log, cls, after))
-    terms.append(("ref", term("None", rec["ref_log"], "ok", rec["ref_final"])))
+    terms.append(("ref", term("None", rec["ref_corr_log"], "ok", rec["ref_final"])))
     for f in rec["faults"]:
         terms.append(("fault", term("(Some %d)" % f["k"], f["log"], f["class"], f["after"])))
-        if not rec["is_new"]:
-            terms.append(("class-rollback", "known_c16_rollback %s %d" % (inp(f["log"]), f["k"])))
     return terms
 
 
@@ -304,6 +349,13 @@ def scenarios(ctx):
     # multipart: a file just above the part size next to small files, new version; (thorough: also as new object, 2 full parts + rest)
     sc({"layout": "0003"}, "pre/fix", 1000,
        [{"op": "new"}, f("a.txt", 2), {"op": "commit"}, f("big.bin", "big5p1"), f("edge.bin", "big5"), f("z.txt", 3), {"op": "commit"}], "obj-0")
+    # the inputs of both repaired classes at once: zero-padded version directories (v00001: the walk of the staged
+    # object used to list the root inventory early), sha256 sidecar, 1.0 object upgraded WITHOUT further staged changes
+    # (the content directory "inventory.json.c" makes the rank-2 rule of the upload sort - name begins with
+    # "inventory.json." - apply to ordinary files of the version directory as well)
+    sc({"layout": "0003", "pad": 5, "alg": "sha256", "obj_spec": "1.0", "cdir": "inventory.json.c"}, "q", 1000,
+       [{"op": "new"}, f("a.txt", 2), f("b.txt", 3, "inventory.json.d/b.txt"), {"op": "commit"},
+        f("c.txt", 4), {"op": "commit"}, {"op": "upgrade_object", "spec": "1.1"}], "obj-0")
     if not ctx.quick():
         sc({"layout": "0006", "pad": 4}, None, 1,
            [{"op": "new", "id": "urn:x:1"}, dict(f("big.bin", "big11"), id="urn:x:1"), dict(f("s.txt", 1), id="urn:x:1"),
@@ -369,14 +421,14 @@ def run(ctx):
         for name, t in model_terms(rec):
             terms.append(t)
             owners.append((ri, name))
-    vals = common.coq_eval("c16", ["Base.Bytes", "Model.S3", "Model.KnownS3", "Corr.CheckS3"], terms, batch=40)
+    vals = common.coq_eval("c16", ["Base.Bytes", "Model.S3", "Corr.CheckS3"], terms, batch=40)
     by_rec = {}
     for (ri, name), v in zip(owners, vals):
         by_rec.setdefault(ri, []).append((name, v))
 
-    known_ids = {k["id"] for k in ctx.known}
     dist = {"commits_swept": 0, "new_object": 0, "new_version": 0, "upgrade": 0, "fault_runs": 0, "by_failed_kind": {}, "by_mode": {},
-            "in_known_class": 0, "dangling_multipart_uploads_after_fault": 0, "requests_per_commit": [], "walk_class_commits": 0,
+            "by_stage": {}, "dangling_multipart_uploads_after_fault": 0, "requests_per_commit": [],
+            "zero_padded_new_objects": 0, "restore_puts_seen": 0, "reads_before_install_seen": 0,
             "model_checks": 0, "prefixes": {}}
     for ri, rec in enumerate(recs):
         mv = by_rec.get(ri, [])
@@ -385,61 +437,58 @@ def run(ctx):
         dist["requests_per_commit"].append(rec["n_requests"])
         dist["prefixes"][str(rec["prefix"])] = dist["prefixes"].get(str(rec["prefix"]), 0) + 1
         dist["model_checks"] += len(mv)
+        dist["reads_before_install_seen"] += sum(1 for e in rec["ref_corr_log"] if e["kind"] == "get")
+        if rec["is_new"] and rec["vstr"].startswith("v0"):
+            dist["zero_padded_new_objects"] += 1
         inp = {"cfg": rec["cfg"], "ops": rec["ops"], "prefix": rec["prefix"], "page_size": rec["page_size"], "commit": rec["label"], "object": rec["oid"]}
         it = iter(mv)
-        walk_class = None
-        if rec["is_new"]:
-            walk_class = next(it)[1] == "true"
         ref_ok = next(it)[1] == "true"
         ctx.count(("order", rec["label"], rec["prefix"]), nontrivial=True,
-                  sample={"commit": rec["label"], "kind": rec["op"], "new_object": rec["is_new"], "requests": [(e["kind"], e["key"][-40:]) for e in rec["ref_log"]],
+                  sample={"commit": rec["label"], "kind": rec["op"], "new_object": rec["is_new"],
+                          "requests": [(e["kind"], e["key"][-40:]) for e in rec["ref_corr_log"]],
                           "order_violation": rec["order_msg"], "model_agrees": ref_ok})
         if rec["order_msg"]:
-            if rec["is_new"] and walk_class and K_WALK in known_ids:
-                ctx.known_hit(K_WALK)
-                dist["walk_class_commits"] += 1
-            else:
-                ctx.violation("impl-violation", {"input": inp, "observed": rec["order_msg"],
-                                                 "requests": [(e["kind"], e["key"]) for e in rec["ref_log"]],
-                                                 "expected": "root inventory.json is stored after every key of the new version and before its sidecar"})
-        elif rec["is_new"] and walk_class:
-            common.corr_break(ctx, "KnownS3.c16_new_object_walk_order says the root inventory is not last, the observed order is fine", {"input": inp})
-        if not ref_ok and not rec["order_msg"]:
-            common.corr_break(ctx, "Corr.CheckS3 fault-free run (model S3.v vs s3.rs)", {"input": inp, "requests": [(e["kind"], e["key"]) for e in rec["ref_log"]]})
+            ctx.violation("impl-violation", {"input": inp, "observed": rec["order_msg"],
+                                             "requests": [(e["kind"], e["key"]) for e in rec["ref_log"]],
+                                             "expected": "root inventory.json is stored after every key of the new version and before its sidecar"})
         elif not ref_ok:
-            common.corr_break(ctx, "Corr.CheckS3 fault-free run (model S3.v vs s3.rs), known order class", {"input": inp, "requests": [(e["kind"], e["key"]) for e in rec["ref_log"]]})
+            common.corr_break(ctx, "Corr.CheckS3 fault-free run (model S3.v vs s3.rs)",
+                              {"input": inp, "requests": [(e["kind"], e["key"]) for e in rec["ref_corr_log"]]})
         for f in rec["faults"]:
             agree = next(it)[1] == "true"
-            in_class = (next(it)[1] == "true") if not rec["is_new"] else False
             dist["fault_runs"] += 1
             dist["by_failed_kind"][f["failed_kind"]] = dist["by_failed_kind"].get(f["failed_kind"], 0) + 1
             dist["by_mode"][f["mode"]] = dist["by_mode"].get(f["mode"], 0) + 1
+            dist["by_stage"][f["stage"]] = dist["by_stage"].get(f["stage"], 0) + 1
             dist["dangling_multipart_uploads_after_fault"] += f["pending_uploads"]
-            finp = dict(inp, fail_request=f["k"], mode=f["mode"], failed=f["failed_kind"])
+            if f["stage"] != "upload":
+                at = next((n for n, e in enumerate(f["log"]) if e.get("fault")), len(f["log"]))
+                dist["restore_puts_seen"] += sum(1 for e in f["log"][at + 1:] if e["kind"] == "put")
+            finp = dict(inp, fail_request=f["k"], mode=f["mode"], failed=f["failed_kind"], stage=f["stage"])
             ctx.count(("fault", rec["label"], rec["prefix"], f["k"], f["mode"]), nontrivial=True,
                       sample={"commit": rec["label"], "fail_request": f["k"], "mode": f["mode"], "failed": f["failed_kind"],
-                              "result": f["class"], "violation": f["msg"], "model_agrees": agree, "known_class": in_class})
-            if f["msg"] and in_class and K_ROLLBACK in known_ids:
-                ctx.known_hit(K_ROLLBACK)
-                dist["in_known_class"] += 1
-                if not agree:
-                    common.corr_break(ctx, "Corr.CheckS3 faulted run inside the known class (model S3.v vs s3.rs)",
-                                      {"input": finp, "requests": [(e["kind"], e["key"], e["status"]) for e in f["log"]]})
-            elif f["msg"]:
+                              "stage": f["stage"], "result": f["class"], "violation": f["msg"], "model_agrees": agree})
+            if f["msg"]:
                 ctx.violation("impl-violation", {"input": finp, "observed": f["msg"],
                                                  "requests": [(e["kind"], e["key"], e["status"]) for e in f["log"]],
                                                  "expected": "error reported, bucket as before the commit, staged version kept, retry succeeds"})
             elif not agree:
                 common.corr_break(ctx, "Corr.CheckS3 faulted run (model S3.v vs s3.rs)",
                                   {"input": finp, "requests": [(e["kind"], e["key"], e["status"]) for e in f["log"]]})
+    # the generator must have reached the inputs of the two repaired classes
+    for stage in ("root-sidecar", "declaration-put", "declaration-delete"):
+        if not dist["by_stage"].get(stage):
+            common.corr_break(ctx, "no fault run reached stage %s (input of the repaired class root-inventory-rollback)" % stage, {"by_stage": dist["by_stage"]})
+    if not dist["zero_padded_new_objects"]:
+        common.corr_break(ctx, "no zero-padded new object was committed (input of the repaired class new-object-walk-order)", {})
     ctx.coverage["traces_validated_against_impl"] = dist["fault_runs"] + dist["commits_swept"]
     ctx.coverage["distribution"] = dist
-    ctx.assumptions.append("the S3 stand-in vplib/s3stub.py replaces real S3; a failed request (HTTP 500 or connection closed before an answer) has no effect on the bucket; one fault per commit")
-    ctx.assumptions.append("dangling multipart uploads (a failed CompleteMultipartUpload is not aborted, s3.rs:1026-1036) are counted in the coverage, they are not keys")
+    ctx.assumptions.append("the S3 stand-in vplib/s3stub.py replaces real S3; a failed request (HTTP 500 or connection closed before an answer) has no effect on the bucket; one fault per commit, at a mutating request (PUT, multipart, DELETE): a second failure during the rollback and failing reads are outside the quantifier of the property")
+    ctx.assumptions.append("dangling multipart uploads (a failed CompleteMultipartUpload is not aborted, s3.rs:1155-1166) are counted in the coverage, they are not keys")
     return common.finish_with_proof(ctx, proof,
-        rule="every commit / upgrade of the scenario histories (new object, new version, upgrade; small and multipart files; bucket root and "
-             "nested prefix) is run fault-free and then once per mutating request and fault mode (HTTP 500, dropped connection); "
-             "distinct = (commit, prefix, failed request number, mode); all are non-trivial")
+        rule="every commit / upgrade of the scenario histories (new object, new version, upgrade; small and multipart files; plain and "
+             "zero-padded version numbers; bucket root and nested prefix) is run fault-free and then once per mutating request and fault "
+             "mode (HTTP 500, dropped connection); distinct = (commit, prefix, failed request number, mode); all are non-trivial")
 
 
 def replay(ctx, body):
@@ -448,13 +497,10 @@ def replay(ctx, body):
         return run(ctx)
     common.build_harness()
     recs = run_scenario(ctx, 0, (inp["cfg"], inp["prefix"], inp.get("page_size", 1000), inp["ops"]), ("500", "drop"))
-    known_ids = {k["id"] for k in ctx.known}
     for rec in recs:
-        if rec["order_msg"] and not (rec["is_new"] and K_WALK in known_ids):
+        if rec["order_msg"]:
             ctx.violation("impl-violation", {"input": inp, "observed": rec["order_msg"]})
-        n_up = sum(1 for e in rec["ref_log"] if e["key"].startswith((s3stub.norm_prefix(rec["prefix"]) + "/" if s3stub.norm_prefix(rec["prefix"]) else "") + rec["root"] + "/" + rec["vstr"] + "/"))
         for f in rec["faults"]:
-            in_class = (not rec["is_new"]) and f["k"] > n_up
-            if f["msg"] and not (in_class and K_ROLLBACK in known_ids):
+            if f["msg"]:
                 ctx.violation("impl-violation", {"input": dict(inp, fail_request=f["k"], mode=f["mode"]), "observed": f["msg"]})
     return ctx.finish(rule="replay of one recorded scenario")
